@@ -35,6 +35,16 @@ class Instance(HObj):
         self.attrs = {}
 
 
+class IterObj(Instance):
+    """an iterator object made by iter(<list / tuple>): attrs src (the sequence) and pos (how many elements were taken)"""
+    kind = "iter"
+
+    def __init__(self, born, src, pos):
+        HObj.__init__(self, born)
+        self.cls = None
+        self.attrs = {"src": src, "pos": pos}
+
+
 class ListObj(HObj):
     """items: list of ("v", term, guard) | ("rep", loop, term, guard)"""
     kind = "list"
@@ -217,6 +227,8 @@ class Interp:
         self.unknown_calls = []
         self.facts = []           # (p, q): p implies q (raise inside a try body => that try's exception flag)
         self.fact_seq = []        # number of events recorded when the fact was added: it speaks about later events only
+        self.raise_conds = set()  # every condition under which an exception was noted to leave a frame ("not c" in a later guard
+                                  # then just says: no exception so far)
         self.writelog = None
         self.warnings = []
 
@@ -636,6 +648,20 @@ class Interp:
                 return obj.args[2]
             if name == "name":
                 return obj.args[1]
+            # methods / properties defined on the enumeration class
+            try:
+                eci = self.prog.cls(obj.args[0].v)
+            except Exception:
+                eci = None
+            cv = self.class_attr(eci, name) if eci is not None else None
+            if isinstance(cv, FuncV):
+                if "staticmethod" in cv.info.deco:
+                    return FuncV(cv.info)
+                if "classmethod" in cv.info.deco:
+                    return FuncV(cv.info, ClassV(eci))
+                if "property" in cv.info.deco or "cached_property" in cv.info.deco:
+                    return self.call_func(cv.info, obj, [], {}, node)
+                return FuncV(cv.info, obj)
         if isinstance(obj, Ext):
             return Ext(obj.name + "." + name)
         if isinstance(obj, Const) and obj.v is None:
@@ -1463,8 +1489,13 @@ class _CallMixin:
                 ln = self.x_len([args[0]], {}, node)
                 bad = compare("ne", binop("mod", ln, Const(total)), Const(0))
                 if bad != FALSE and not self.len_multiple_of(ln, total):
-                    self.event("raise", (Op("call:struct.error"),), node)
-                    self.note_raise(and_(self.local_guard(state=True), bad))
+                    self.guard.append(bad)
+                    try:
+                        if self.feasible():
+                            self.event("raise", (Op("call:struct.error"),), node)
+                            self.note_raise(self.local_guard(state=True))
+                    finally:
+                        self.guard.pop()
                 return Op("iter_unpack", recv.args[0], args[0])
             raise AnalysisError("struct.Struct.%s is not modelled (line %s)" % (name, getattr(node, "lineno", "?")))
         if isinstance(recv, Op) and recv.op == "superobj":
@@ -1500,13 +1531,24 @@ class _CallMixin:
             except Exception:
                 pass
         if name == "format":
-            return str_format(recv, args, kwargs)
+            def _follow(base, path):
+                v = base
+                for is_attr, key in path:
+                    v = self.get_attr(v, key, node) if is_attr else self.getitem(v, Const(key), node)
+                return v
+            return str_format(recv, args, kwargs, _follow)
         if name in ("removeprefix", "removesuffix") and len(args) == 1 and is_const(args[0], (str, bytes)) and args[0].v and not kwargs:
             # canonical form: the test-and-slice idiom
             n_ = len(args[0].v)
+            test_ = Op("m:startswith" if name == "removeprefix" else "m:endswith", recv, args[0])
+            if isinstance(recv, Op) and recv.op in ("fmt", "concat") and is_const(args[0], str):
+                # a text that is known to begin / end with a literal
+                edge = recv.args[0] if name == "removeprefix" else recv.args[-1]
+                if is_const(edge, str) and len(edge.v) >= n_:
+                    test_ = Const(getattr(edge.v, "startswith" if name == "removeprefix" else "endswith")(args[0].v))
             if name == "removeprefix":
-                return ite(Op("m:startswith", recv, args[0]), Op("getslice", recv, Const(n_), NONE), recv)
-            return ite(Op("m:endswith", recv, args[0]), Op("getslice", recv, NONE, Const(-n_)), recv)
+                return ite(test_, Op("getslice", recv, Const(n_), NONE), recv)
+            return ite(test_, Op("getslice", recv, NONE, Const(-n_)), recv)
         if name in ("startswith", "endswith") and isinstance(recv, Op) and recv.op in ("fmt", "concat") and len(args) == 1 and is_const(args[0], str):
             edge = recv.args[0] if name == "startswith" else recv.args[-1]
             if is_const(edge, str) and len(edge.v) >= len(args[0].v):
@@ -1533,7 +1575,10 @@ class _CallMixin:
                 if simple:
                     return fmt(parts) if parts else Const("")
                 return Op("m:join", recv, Op("listsummary", *[self.item_term(it) for it in lo.items]))
-        if name in ("hex", "decode", "tobytes", "strip", "rstrip", "lstrip", "lower", "upper", "encode"):
+        if name == "decode" and (args or kwargs):
+            # b.decode(encoding, errors) is str(b, encoding, errors): one canonical form, error policy included
+            return Op("strdecode", recv, *args, *[Op("kv", Const(x), y) for x, y in sorted(kwargs.items())])
+        if name in ("hex", "decode", "tobytes", "strip", "rstrip", "lstrip", "lower", "upper", "encode") and not kwargs:
             return Op("m:" + name, recv, *args)
         # unknown object method: plugin / external behaviour
         kw = tuple(sorted(kwargs.items()))
@@ -2319,6 +2364,7 @@ class _StmtMixin:
                 fr.raised = []
             fr.raised.append(g)
         fr.rdead.append(g)
+        self.raise_conds.add(g)
 
     def st_Assert(self, st):
         c = self.ev_bool(st.test)
@@ -2451,7 +2497,19 @@ class _StmtMixin:
             cond = and_(exc, hc, *[not_(p) for p in prev]) if len(st.handlers) > 1 else exc
             prev.append(hc)
             self.guard.append(cond)
-            self.event("handler", (exc, ast.unparse(h.type) if h.type else None), h)
+            htxt = ast.unparse(h.type) if h.type else None
+            if isinstance(h.type, ast.Name):
+                # `except catch:` where catch is a variable / parameter holding an exception class
+                try:
+                    self._quiet_unbound = True
+                    hv = self.simp(self.ev(h.type))
+                except Exception:
+                    hv = None
+                finally:
+                    self._quiet_unbound = False
+                if isinstance(hv, Ext) and hv.name.split(".")[-1] != htxt and hv.name.split(".")[-1][:1].isupper():
+                    htxt = hv.name.split(".")[-1]
+            self.event("handler", (exc, htxt), h)
             if h.name:
                 self.frames[-1].env[h.name] = Op("excobj", exc)
             if self.feasible():
@@ -2515,6 +2573,17 @@ class _LoopMixin:
                 return [i[1] for i in o.items]
             if isinstance(o, DictObj) and o.concrete():
                 return [k for k, _, _, _ in self.dedup(o)]
+        if isinstance(it, Op) and it.op in ("m:items", "m:keys", "m:values") and len(it.args) == 1 and isinstance(it.args[0], Ref):
+            o = self.heap.get(it.args[0].oid)
+            known = isinstance(o, DictObj) and o.prev_iter is None and all(
+                (isinstance(k, Const) or (isinstance(k, Op) and k.op == "enum")) and g == TRUE and not lc for k, v, g, lc in o.entries)
+            if known:
+                ents = self.dedup(o)
+                if it.op == "m:keys":
+                    return [k for k, _, _, _ in ents]
+                if it.op == "m:values":
+                    return [v for _, v, _, _ in ents]
+                return [self.mk_list([k, v], "tuple") for k, v, _, _ in ents]
         if isinstance(it, Op) and it.op == "range" and all(is_int(a) for a in it.args):
             try:
                 return [Const(x) for x in range(*[a.v for a in it.args])]
@@ -3186,6 +3255,11 @@ class _ExtMixin:
             return Const("")
         if len(a) > 1 or k:
             return Op("strdecode", a[0], *a[1:], *[Op("kv", Const(x), y) for x, y in sorted(k.items())])
+        v0 = self.simp(a[0])
+        o0 = self.heap.get(v0.oid) if isinstance(v0, Ref) else None
+        cls0 = getattr(o0, "ntclass", None) or (o0.cls if isinstance(o0, Instance) else None)
+        if cls0 is not None and isinstance(self.class_attr(cls0, "__str__"), FuncV):
+            return self.call_method(v0, "__str__", [], {}, n)       # a class that defines its own text form
         if isinstance(a[0], Const):
             return Const(str(a[0].v))
         from .terms import _stringy
@@ -3259,7 +3333,7 @@ class _ExtMixin:
         return Op("enumerate", *a, *([k["start"]] if "start" in k else []))
 
     def x_zip(self, a, k, n):
-        return Op("zip", *a)
+        return Op("zip", *[self.drain(x) for x in a])
 
     def x_reversed(self, a, k, n):
         return Op("reversed", *a)
@@ -3290,7 +3364,7 @@ class _ExtMixin:
     def x_tuple(self, a, k, n):
         if not a:
             return Const(())
-        v = self.simp(a[0])
+        v = self.simp(self.drain(a[0]))
         lo = self.as_list(v)
         if lo is not None:
             if lo.concrete():
@@ -3451,7 +3525,7 @@ class _ExtMixin:
 
     def seq_items(self, v, n):
         """items of a list / comprehension / generator argument of next(), any(), all()"""
-        v = self.simp(v)
+        v = self.simp(self.drain(v))
         if isinstance(v, GenV):
             res = self.mk_list([])
             o = self.heap[res.oid]
@@ -3479,7 +3553,85 @@ class _ExtMixin:
                 if hit != FALSE and hit not in it[1].stops:
                     it[1].stops.append(hit)
 
+    def x_iter(self, a, k, n):
+        if len(a) == 1 and not k:
+            v = self.simp(a[0])
+            if isinstance(v, Ref) and isinstance(self.heap.get(v.oid), IterObj):
+                return v                    # iter(iterator) is the iterator
+            if self.as_list(v) is not None or (isinstance(v, Const) and isinstance(v.v, (tuple, list, str, bytes))):
+                return self.alloc(IterObj(self.born_now(), v, Const(0)))
+        if len(a) == 2 and not k:
+            # iter(callable, sentinel): calls until the sentinel comes back - unrolled where a bound is known (islice)
+            return Op("calliter", a[0], a[1])
+        return None
+
+    def iter_cell(self, v):
+        v = self.simp(v)
+        o = self.heap.get(v.oid) if isinstance(v, Ref) else None
+        return o if isinstance(o, IterObj) else None
+
+    def drain(self, v):
+        """the rest of a positional iterator as a sequence value (the iterator is exhausted afterwards)"""
+        o = self.iter_cell(v)
+        if o is None:
+            return v
+        src, pos = o.attrs["src"], self.simp(o.attrs["pos"])
+        rest = src if pos == Const(0) else self.getslice(src, pos, NONE, NONE, None)
+        g = self.rel_guard(o.born)
+        end = self.x_len([src], {}, None)
+        o.attrs["pos"] = end if g == TRUE else ite(g, end, pos)
+        return rest
+
+    def x_itertools_islice(self, a, k, n):
+        src = self.simp(a[0]) if a else None
+        if isinstance(src, Op) and src.op == "calliter" and len(a) == 2 and is_int(a[1]) and 0 <= a[1].v <= UNROLL_MAX:
+            f, sentinel = src.args
+            res = self.mk_list([])
+            o = self.heap[res.oid]
+            live = []
+            for _ in range(a[1].v):
+                self.guard.extend(live)
+                try:
+                    if not self.feasible():
+                        break
+                    v = self.call_value(f, [], {}, n)
+                finally:
+                    for _x in live:
+                        self.guard.pop()
+                more = not_(self.cmp("eq", v, sentinel))
+                live.append(more)
+                g = and_(*live)
+                if g == FALSE:
+                    break
+                o.items.append(("v", v, g))
+            return res
+        if a:
+            a = [self.drain(a[0])] + list(a[1:])
+            if a[0] is not src:
+                return Op("call:itertools.islice", *a)
+        return None
+
     def x_next(self, a, k, n):
+        cell = self.iter_cell(a[0])
+        if cell is not None:
+            src, pos = cell.attrs["src"], self.simp(cell.attrs["pos"])
+            ln = self.x_len([src], {}, n)
+            out = compare("ge", pos, ln)
+            if len(a) == 1 and out != FALSE:
+                self.guard.append(out)
+                try:
+                    if self.feasible():
+                        self.event("raise", (Op("call:StopIteration"),), n)
+                        self.note_raise(self.local_guard(state=True))
+                finally:
+                    self.guard.pop()
+            val = self.getitem(src, pos, n)
+            g = self.rel_guard(cell.born)
+            step = add(pos, Const(1)) if out == FALSE or len(a) == 1 else ite(out, pos, add(pos, Const(1)))
+            cell.attrs["pos"] = step if g == TRUE else ite(g, step, pos)
+            if len(a) > 1 and out != FALSE:
+                return ite(out, a[1], val)
+            return val
         items = self.seq_items(a[0], n)
         if items is not None:
             self.lazy_stop(a[0], items, None)
@@ -3683,8 +3835,13 @@ class _ExtMixin:
         if not check:
             bad = FALSE
         if bad != FALSE:
-            self.event("raise", (Op("call:struct.error"),), n)
-            self.note_raise(and_(self.local_guard(state=True), bad))
+            self.guard.append(bad)
+            try:
+                if self.feasible():
+                    self.event("raise", (Op("call:struct.error"),), n)
+                    self.note_raise(self.local_guard(state=True))
+            finally:
+                self.guard.pop()
         vals = []
         for off, w, kind in fields:
             sl = self.getslice(data, add(start, Const(off)), add(start, Const(off + w)), NONE, n)
@@ -3736,8 +3893,13 @@ class _ExtMixin:
         ln = self.x_len([data], {}, n)
         bad = compare("ne", ln, Const(total))
         if bad != FALSE:
-            self.event("raise", (Op("call:struct.error"),), n)
-            self.note_raise(and_(self.local_guard(state=True), bad))
+            self.guard.append(bad)
+            try:
+                if self.feasible():
+                    self.event("raise", (Op("call:struct.error"),), n)
+                    self.note_raise(self.local_guard(state=True))
+            finally:
+                self.guard.pop()
         vals = []
         off = 0
         for c in codes:
@@ -3931,7 +4093,7 @@ _orig_st_For = _LoopMixin.st_For
 
 
 def _st_For_gen(self, st):
-    it = self.simp(self.ev(st.iter))
+    it = self.simp(self.drain(self.ev(st.iter)))
     if isinstance(it, GenV):
         fr = self.frames[-1]
         ctl = LoopCtl()
@@ -4083,6 +4245,7 @@ _orig_x_list = _ExtMixin.x_list
 
 def _x_list_gen(self, a, k, n):
     if a:
+        a = [self.drain(a[0])] + list(a[1:])
         v = self.simp(a[0])
         if isinstance(v, GenV):
             res = self.mk_list([])
